@@ -485,3 +485,22 @@ Proof.
   - unfold step_balanced, s_change in *. rewrite <- Hchs. lia.
   - unfold s_change in *. rewrite <- Hchs. lia.
 Qed.
+
+(** ** store cases *)
+Theorem bridge_store db udb target refs tids post upost :
+  run_case (CStore db udb target refs tids post upost) = true ->
+  prop_case (CStore db udb target refs tids post upost) = true.
+Proof.
+  intros Hrun. cbn [run_case] in Hrun. apply andb_true_iff in Hrun. destruct Hrun as [Hn Hu].
+  unfold prop_case. cbn [prop_case_s prop_case_t andb]. apply andb_true_iff. split.
+  - apply forallb_forall. intros r Hr. rewrite forallb_forall in Hn. specialize (Hn r Hr).
+    destruct (live_lock target (r_lock r) && negb (spent_by refs r)) eqn:E; [|reflexivity].
+    apply andb_true_iff in E. destruct E as [_ E]. apply negb_true_iff in E. rewrite E in Hn.
+    destruct (find_row post (r_pool r, r_id r)) as [r'|]; [|discriminate].
+    unfold lock_agrees in Hn. rewrite !andb_true_iff in Hn. rewrite andb_true_iff. tauto.
+  - apply forallb_forall. intros u Hu'. rewrite forallb_forall in Hu. specialize (Hu u Hu').
+    destruct (live_lock target (u_lock u) && negb (u_spent_by tids u)) eqn:E; [|reflexivity].
+    apply andb_true_iff in E. destruct E as [_ E]. apply negb_true_iff in E. rewrite E in Hu.
+    destruct (find_utxo upost (u_id u)) as [u'|]; [|discriminate].
+    unfold u_lock_agrees in Hu. rewrite !andb_true_iff in Hu. rewrite andb_true_iff. tauto.
+Qed.
